@@ -137,6 +137,72 @@ func (r *rwRT) ruleCloseContract() {
 	}
 }
 
+// ruleCloseNil: the other half of the list contract. rewriteStmts does nothing more when rewriteStmt
+// answers nil for the last statement of a list ("no following block"): the statement must then have
+// closed the open block itself. For every statement shape, on every accepting path with isLast = true that
+// returns nil, the last thing done to a block is a return (pushReturn), the closing decision
+// (generateLastNormalIfNecessary), or the emission of the branch statement itself (pass3 turns it into a
+// return). Otherwise a thunk whose list ends in that statement lacks its return ("missing return").
+func (r *rwRT) ruleCloseNil() {
+	c := r.c
+	fn := r.method("yieldRewriter", "rewriteStmt")
+	pos := r.w.FnPos(fn)
+	checked := 0
+	for _, kind := range r.stmtKinds() {
+		for _, shp := range r.shapes(kind) {
+			cfg := rwConfig{root: fn, blockOracles: true, boundaries: map[string]bool{
+				"rewriteIfStmt": false, "rewriteSwitchStmt": false, "rewriteForStmt": false,
+				"rewriteYieldCall": false, "combineIfNecessary": false, "generateLastNormalIfNecessary": true,
+			}}
+			in := r.interp(cfg)
+			in.MaxRecur, in.MaxVisits, in.MaxDepth = 3, 4, 16
+			outs := in.Run(shp.st.clone(), fn, []AV{Sym{Name: "r", NN: true}, shp.root, mkBool(true), Sym{Name: "children", NN: true}}, nil)
+			r.account(in)
+			bad := ""
+			nilPaths := 0
+			for _, o := range outs {
+				if o.Panicked || o.St.Truncated || len(o.Ret) != 1 {
+					continue
+				}
+				if n, known := nilness(o.Ret[0]); !known || !n {
+					continue
+				}
+				nilPaths++
+				lastEv := ""
+				okEnd := false
+				for _, e := range o.St.Events {
+					if e.Kind != "call" || e.Fn == nil || !inRw(e.Fn) {
+						continue
+					}
+					switch e.Fn.Name() {
+					case "pushReturn", "generateLastNormalIfNecessary":
+						lastEv, okEnd = e.Fn.Name(), true
+					case "push":
+						lastEv, okEnd = "push", false
+						if len(e.Args) >= 2 {
+							if po := o.St.Obj(unwrap(e.Args[1])); po != nil && typeName(po.T) == "BranchStmt" && sameAV(unwrap(e.Args[1]), unwrap(shp.root)) {
+								okEnd = true // break / continue: rewritten to a return by the branch pass (or native inside a native loop)
+							}
+						}
+					}
+				}
+				if !okEnd {
+					bad = fmt.Sprintf("rewriteStmt answers nil (\"nothing follows\") for a last statement, but the last thing done to the output is %q, not a return or the closing decision: %s", lastEv, pathSummary(o))
+				}
+			}
+			if nilPaths == 0 {
+				continue
+			}
+			checked++
+			c.check(bad == "", "RW.CLOSE", "last statement answering nil has closed its block: "+shp.desc, pos,
+				fmt.Sprintf("%d path(s) return nil: each ends with a return pushed, the closing decision taken, or the branch statement itself", nilPaths), bad)
+		}
+	}
+	if checked == 0 {
+		c.ok("RW.CLOSE", "last statement answering nil has closed its block", pos, "no statement shape makes rewriteStmt answer nil: the list contract closes every block")
+	}
+}
+
 // ruleCloseWrap: every thunk built from a non-delay block is closed on its path.
 func (r *rwRT) ruleCloseWrap() {
 	c := r.c
@@ -303,6 +369,26 @@ func (r *rwRT) ruleFactory() {
 			}
 		}
 	}
+	// qualified names: pkg.Name, and the bare Name under a dot import (generated code must build under every way
+	// of importing seq)
+	if ps := r.w.MethodOpt(pathRw, "factor", "PkgSelect"); ps != nil {
+		c.fn(relName(ps))
+		for _, pkgName := range []string{".", "sq"} {
+			in := r.interp(rwConfig{root: ps, inlineAll: true})
+			outs := in.Run(newState(), ps, []AV{StructV{}, mkString(pkgName), mkString("Bind")}, nil)
+			r.account(in)
+			var err error
+			if len(outs) != 1 || outs[0].Panicked || len(outs[0].Ret) != 1 {
+				err = fmt.Errorf("not a single normal path")
+			} else if pkgName == "." {
+				err = matchTmpl(outs[0].St, outs[0].Ret[0], nd("Ident", map[string]Pat{"Name": pStr{"Bind"}}))
+			} else {
+				err = matchTmpl(outs[0].St, outs[0].Ret[0], pSelect(nd("Ident", map[string]Pat{"Name": pStr{pkgName}}), "Bind"))
+			}
+			c.check(err == nil, "RW.FACTORY", "qualified name under import name "+pkgName, r.w.FnPos(ps),
+				map[bool]string{true: "a dot import is referred to by the bare name", false: "pkg.Name"}[pkgName == "."], fmt.Sprint(err))
+		}
+	}
 	c.check(bad == "", "RW.FACTORY", "AST factory total on supported statements", pos,
 		fmt.Sprintf("%d abstract paths over all supported statement shapes (every optional part present/absent): no panic is raised inside the AST factory", paths), bad)
 }
@@ -329,6 +415,10 @@ func (r *rwRT) ruleImport() {
 					if seqAns == "" {
 						return []Answer{{Ret: []AV{mkString("")}}}
 					}
+					if seqAns == "default" {
+						// imported without a name of its own: the helper answers with the default it is given
+						return []Answer{{Ret: []AV{cc.Args[2]}}}
+					}
 					return []Answer{{Ret: []AV{mkString("sq")}}}
 				}
 				return []Answer{{Ret: []AV{mkString("c0")}}}
@@ -338,11 +428,12 @@ func (r *rwRT) ruleImport() {
 		}
 		return nil
 	})
-	for _, present := range []string{"", "imported"} {
+	realName := r.w.Pkgs[pathSeq].Types.Name()
+	for _, present := range []string{"", "imported", "default"} {
 		seqAns = present
 		outs := in.Run(nil, fn, []AV{Sym{Name: "r", NN: true}, Sym{Name: "f", NN: true}, Sym{Name: "printer", NN: true}}, nil)
 		r.account(in)
-		construct := "seq import: " + map[string]string{"": "absent in the file", "imported": "already imported (under any name)"}[present]
+		construct := "seq import: " + map[string]string{"": "absent in the file", "imported": "already imported (under any name)", "default": "already imported without a name of its own"}[present]
 		var err error
 		seen := false
 		for _, o := range outs {
@@ -369,8 +460,10 @@ func (r *rwRT) ruleImport() {
 			} else {
 				if added != nil {
 					err = fmt.Errorf("a second import of seq is added although the file imports it")
-				} else if got, _ := asString(stored); got != "sq" {
+				} else if got, _ := asString(stored); present == "imported" && got != "sq" {
 					err = fmt.Errorf("generated code refers to seq as %v instead of the name the file imports it under", stored)
+				} else if present == "default" && got != realName {
+					err = fmt.Errorf("the file imports seq without a name of its own, so it is known as %q there, but generated code refers to it as %v", realName, stored)
 				}
 			}
 		}
